@@ -173,9 +173,15 @@ pub fn check(case: &SemCase, st: &mut Stats, ex: &Excl) -> Result<(), String> {
         }
     }
     // (c) in-use set == closure from main and the interrupt handlers
+    // (the handlers are those of the source, whatever the compiler says of them)
     let mut roots = vec!["main".to_string()];
-    for f in &cap.funcs {
+    for f in &case.prog.funcs {
         if f.interrupt {
+            roots.push(f.name.clone());
+        }
+    }
+    for f in &cap.funcs {
+        if f.interrupt && !roots.contains(&f.name) {
             roots.push(f.name.clone());
         }
     }
